@@ -78,6 +78,10 @@ type Ctx struct {
 	aliveDone map[[2]*Term]bool
 	curMk    *markerInfo
 	inUse    map[*ssa.Function]int
+	recTrial map[*ssa.Function]bool
+	recTarget *ssa.Function
+	recMeasure func(fr *Frame, args []Val) *Term
+	recMeasure0 *Term
 	reads    []readEvent
 	prefer   []*Term
 	splits   []*Term // boolean terms worth a case split (append in place / reallocated)
